@@ -7,6 +7,8 @@ import (
 	"fmt"
 	"io"
 	"os"
+
+	"github.com/klev-dev/klevdb/pkg/verifhook"
 )
 
 var (
@@ -85,6 +87,7 @@ const keysBit byte = 0b00000010
 const unusedBits byte = 0b11111100
 
 type Writer struct {
+	path    string
 	opts    Params
 	f       *os.File
 	pos     int64
@@ -108,6 +111,7 @@ func OpenWriter(path string, offset int64, newVersion Version, opts Params) (w *
 	if err != nil {
 		return nil, fmt.Errorf("write index stat: %w", err)
 	}
+	verifhook.FS("open", "index.OpenWriter", path, "")
 
 	pos := stat.Size()
 	var v Version
@@ -119,6 +123,7 @@ func OpenWriter(path string, offset int64, newVersion Version, opts Params) (w *
 		if _, err := f.Write(h[:]); err != nil {
 			return nil, fmt.Errorf("write index header: %w", err)
 		}
+		verifhook.FS("write", "index.OpenWriter/header", path, "")
 		pos = int64(len(h))
 		v = newVersion
 	} else {
@@ -139,6 +144,7 @@ func OpenWriter(path string, offset int64, newVersion Version, opts Params) (w *
 	}
 
 	w = &Writer{opts: opts, f: f, pos: pos, version: v}
+	w.path = path
 
 	switch {
 	case opts.Times && opts.Keys:
@@ -171,6 +177,7 @@ func (w *Writer) writeBase(it Item) error {
 	} else {
 		w.pos += int64(n)
 	}
+	verifhook.FS("write", "index.Writer.Write", w.path, "")
 
 	return nil
 }
@@ -185,6 +192,7 @@ func (w *Writer) writeTimes(it Item) error {
 	} else {
 		w.pos += int64(n)
 	}
+	verifhook.FS("write", "index.Writer.Write", w.path, "")
 
 	return nil
 }
@@ -199,6 +207,7 @@ func (w *Writer) writeKeys(it Item) error {
 	} else {
 		w.pos += int64(n)
 	}
+	verifhook.FS("write", "index.Writer.Write", w.path, "")
 
 	return nil
 }
@@ -214,6 +223,7 @@ func (w *Writer) writeFull(it Item) error {
 	} else {
 		w.pos += int64(n)
 	}
+	verifhook.FS("write", "index.Writer.Write", w.path, "")
 
 	return nil
 }
@@ -226,6 +236,7 @@ func (w *Writer) Sync() error {
 	if err := w.f.Sync(); err != nil {
 		return fmt.Errorf("write index sync: %w", err)
 	}
+	verifhook.FS("fsync", "index.Writer.Sync", w.path, "")
 	return nil
 }
 
@@ -250,6 +261,7 @@ func Write(path string, offset int64, newVersion Version, opts Params, index []I
 	if err := os.Remove(path); err != nil && !errors.Is(err, os.ErrNotExist) {
 		return fmt.Errorf("write index remove stale temp: %w", err)
 	}
+	verifhook.FS("remove", "index.Write/drop-stale", path, "")
 
 	w, err := OpenWriter(path, offset, newVersion, opts)
 	if err != nil {
@@ -294,6 +306,7 @@ func Write(path string, offset int64, newVersion Version, opts Params, index []I
 	if err := os.Rename(path, target); err != nil {
 		return fmt.Errorf("write index rename: %w", err)
 	}
+	verifhook.FS("rename", "index.Write", path, target)
 	return nil
 }
 
